@@ -115,6 +115,7 @@ type receiverInfo struct {
 	name     string
 	typeName string
 	pkgPath  string
+	obj      types.Object // the receiver variable itself, to tell it from shadowing identifiers
 }
 
 // extractReceiverInfo extracts receiver information from a method declaration
@@ -143,6 +144,7 @@ func extractReceiverInfo(pass *analysis.Pass, funcDecl *ast.FuncDecl) *receiverI
 		name:     recvName,
 		typeName: typeInfo.TypeName,
 		pkgPath:  typeInfo.PkgPath,
+		obj:      pass.TypesInfo.Defs[recvField.Names[0]],
 	}
 }
 
@@ -386,6 +388,11 @@ func checkReceiverIncDec(
 		return nil
 	}
 
+	// A parameter or local variable of a nested function may shadow the receiver's name
+	if obj := ctx.pass.TypesInfo.Uses[ident]; obj != nil && ctx.currentReceiver.obj != nil && obj != ctx.currentReceiver.obj {
+		return nil
+	}
+
 	// Check if the receiver type is immutable
 	if !ctx.immutableTypes.Contains(ctx.currentReceiver.pkgPath, ctx.currentReceiver.typeName) {
 		return nil
@@ -502,6 +509,11 @@ func checkReceiverReassignment(
 
 	// Check if the identifier is the receiver
 	if ident.Name != ctx.currentReceiver.name {
+		return nil
+	}
+
+	// A parameter or local variable of a nested function may shadow the receiver's name
+	if obj := ctx.pass.TypesInfo.Uses[ident]; obj != nil && ctx.currentReceiver.obj != nil && obj != ctx.currentReceiver.obj {
 		return nil
 	}
 
